@@ -1,3 +1,316 @@
-import Winter.Model.Divisor
+-- C16: constraints are enforced on exactly the intended steps.
+-- Theorems about the executable model `Winter/Model/Divisor.lean` (tied to the Rust code by the
+-- exhaustive correspondence of harness/src/bin/c16.rs) instantiated with an arbitrary Mathlib field
+-- that has an element `g` of exact order `n` (`IsPrimitiveRoot g n`); trace lengths, exemption
+-- counts and assertions are unbounded.  The concrete `example`s use ZMod 17, where 2 has order 8.
+import Mathlib.Algebra.Field.ZMod
+import WinterProofs.Lemmas.C16Field
+import WinterProofs.Lemmas.C16Model
+
 namespace WinterProofs.C16
+open Model.Divisor WinterProofs.C16L Polynomial
+
+variable {F : Type} [Field F]
+
+instance : Fact (Nat.Prime 17) := ⟨by decide⟩
+
+/-- 2 has exact order 8 in ZMod 17 (the concrete instance used by the examples) -/
+theorem two_primitive_zmod17 : IsPrimitiveRoot (2 : ZMod 17) 8 :=
+  IsPrimitiveRoot.mk_of_lt _ (by decide) (by decide) (fun l h0 h8 =>
+    (by decide : ∀ l : Fin 8, 0 < l.val → (2 : ZMod 17) ^ l.val ≠ 1) ⟨l, h8⟩ h0)
+
+-- ============================================================================================
+-- (a) transition divisor
+-- ============================================================================================
+
+/-- the numerator `X^n - 1` vanishes exactly on the trace domain `{g^i : i < n}` -/
+theorem transition_numerator_zero_iff {g x : F} {n : ℕ} (hn : 0 < n) (hg : IsPrimitiveRoot g n) :
+    x ^ n - 1 = 0 ↔ ∃ i < n, x = g ^ i :=
+  pow_sub_one_eq_zero_iff hn hg
+
+/-- the exemption product `∏_{k=n-e}^{n-1} (X - g^k)` vanishes exactly on the last `e` steps -/
+theorem transition_exemptions_zero_iff {g x : F} {n e : ℕ} :
+    ∏ k ∈ Finset.Ico (n - e) n, (x - g ^ k) = 0 ↔ ∃ k, n - e ≤ k ∧ k < n ∧ x = g ^ k :=
+  prod_Ico_eq_zero_iff
+
+/-- as polynomials: `X^n - 1 = ∏_{i<n-e} (X - g^i) · ∏_{k=n-e}^{n-1} (X - g^k)`, so the divisor
+    `(X^n - 1) / ∏_{k=n-e}^{n-1} (X - g^k)` is the polynomial `∏_{i<n-e} (X - g^i)` -/
+theorem transition_divisor_poly {g : F} {n : ℕ} (e : ℕ) (hn : 0 < n) (hg : IsPrimitiveRoot g n) :
+    (X ^ n - 1 : F[X]) =
+      (∏ i ∈ Finset.range (n - e), (X - C (g ^ i))) * ∏ k ∈ Finset.Ico (n - e) n, (X - C (g ^ k)) := by
+  rw [X_pow_sub_one_eq_prod_range hn hg, Finset.prod_range_mul_prod_Ico _ (Nat.sub_le n e)]
+
+/-- `from_transition(n, e)` for `e ≤ n`: what is stored, its degree `n - e`, and what
+    `evaluate_at` / `evaluate_exemptions_at` compute at any `x` -/
+theorem transition_divisor_spec {root : ℕ → Option F} {g : F} {n e : ℕ}
+    (hroot : root (Nat.log2 n) = some g) (he : e ≤ n) :
+    ∃ d, fromTransition (fieldOps F root) n e = .ok d ∧
+      d.degree = .ok (n - e) ∧
+      (∀ x, d.evalNumerator (fieldOps F root) x = x ^ n - 1) ∧
+      (∀ x, d.evalExemptions (fieldOps F root) x = ∏ k ∈ Finset.Ico (n - e) n, (x - g ^ k)) ∧
+      (∀ x, d.evalAt (fieldOps F root) x =
+        some ((x ^ n - 1) / ∏ k ∈ Finset.Ico (n - e) n, (x - g ^ k))) := by
+  refine ⟨⟨[(n, 1)], (List.range' (n - e) e).map (fun k => g ^ k)⟩, ?_, ?_, ?_, ?_, ?_⟩
+  · unfold fromTransition
+    rw [if_neg (by omega)]
+    by_cases h0 : e = 0
+    · subst h0; simp [fieldOps]
+    · rw [if_neg h0]; simp [fieldOps, hroot]
+  · simp [Divisor.degree]; omega
+  · intro x; exact evalNumerator_single root n 1 x _
+  · intro x
+    rw [evalExemptions_eq, Nat.sub_add_cancel he]
+  · intro x
+    have h1 := evalNumerator_single root n 1 x ((List.range' (n - e) e).map (fun k => g ^ k))
+    have h2 := evalExemptions_eq root [(n, (1 : F))] g x (n - e) e
+    rw [Nat.sub_add_cancel he] at h2
+    unfold Divisor.evalAt
+    rw [h1, h2]
+    rfl
+
+example : ∃ d, fromTransition (fieldOps (ZMod 17) (fun _ => some 2)) 8 3 = .ok d ∧ d.degree = .ok 5 :=
+  let ⟨d, h1, h2, _⟩ := transition_divisor_spec (F := ZMod 17) (root := fun _ => some 2) (g := 2)
+    (n := 8) (e := 3) rfl (by decide)
+  ⟨d, h1, h2⟩
+
+/-- **zero set of the transition divisor.**  At every `x` that is not an exempt point the value
+    `evaluate_at` returns is `∏_{i<n-e} (x - g^i)`; it is zero exactly on the non-exempt steps
+    `g^i, i < n - e`. -/
+theorem transition_divisor_zero_set {root : ℕ → Option F} {g : F} {n e : ℕ} (hn : 0 < n)
+    (hg : IsPrimitiveRoot g n) (hroot : root (Nat.log2 n) = some g) (he : e ≤ n) :
+    ∃ d, fromTransition (fieldOps F root) n e = .ok d ∧
+      ∀ x, (¬ ∃ k, n - e ≤ k ∧ k < n ∧ x = g ^ k) →
+        d.evalAt (fieldOps F root) x = some (∏ i ∈ Finset.range (n - e), (x - g ^ i)) ∧
+        (d.evalAt (fieldOps F root) x = some 0 ↔ ∃ i, i < n - e ∧ x = g ^ i) := by
+  obtain ⟨d, hd, _, _, _, hq⟩ := transition_divisor_spec (F := F) hroot he
+  refine ⟨d, hd, fun x hx => ?_⟩
+  have hex : ∏ k ∈ Finset.Ico (n - e) n, (x - g ^ k) ≠ 0 := fun h => hx (prod_Ico_eq_zero_iff.mp h)
+  have hval : d.evalAt (fieldOps F root) x = some (∏ i ∈ Finset.range (n - e), (x - g ^ i)) := by
+    rw [hq, pow_sub_one_split (e := e) hn hg x, mul_div_assoc, div_self hex, mul_one]
+  refine ⟨hval, ?_⟩
+  rw [hval, Option.some_inj]
+  exact prod_range_eq_zero_iff
+
+/-- the hypotheses of `transition_divisor_zero_set` hold for n = 8, e = 3 over ZMod 17 (g = 2) -/
+example : ∃ d, fromTransition (fieldOps (ZMod 17) (fun _ => some 2)) 8 3 = .ok d ∧
+    ∀ x, (¬ ∃ k, 8 - 3 ≤ k ∧ k < 8 ∧ x = (2 : ZMod 17) ^ k) →
+      d.evalAt (fieldOps (ZMod 17) (fun _ => some 2)) x = some (∏ i ∈ Finset.range (8 - 3), (x - 2 ^ i)) ∧
+      (d.evalAt (fieldOps (ZMod 17) (fun _ => some 2)) x = some 0 ↔ ∃ i, i < 8 - 3 ∧ x = 2 ^ i) :=
+  transition_divisor_zero_set (by decide) two_primitive_zmod17 rfl (by decide)
+
+/-- on the trace domain: the numerator vanishes at every step, the exemption product exactly at the
+    last `e` steps (steps `i ≥ n - e`) -/
+theorem transition_on_domain {g : F} {n e i : ℕ} (hg : IsPrimitiveRoot g n) (hi : i < n) :
+    (g ^ i) ^ n - 1 = 0 ∧
+      (∏ k ∈ Finset.Ico (n - e) n, (g ^ i - g ^ k) = 0 ↔ n - e ≤ i) := by
+  refine ⟨?_, ?_⟩
+  · rw [← pow_mul, mul_comm, pow_mul, hg.pow_eq_one, one_pow, sub_self]
+  · rw [prod_Ico_eq_zero_iff]
+    constructor
+    · rintro ⟨k, h1, h2, h3⟩
+      rw [hg.pow_inj hi h2 h3]; exact h1
+    · intro h; exact ⟨i, h, hi, rfl⟩
+
+/-- what the code's `evaluate_at` returns ON the trace domain: always zero, also at the exempt
+    steps, because there it computes `0 · 0⁻¹` with `0⁻¹ = 0`.  (This is why the zero set is stated
+    through numerator and exemption product, and through `transition_divisor_zero_set` off the
+    exempt points; the protocol never calls `evaluate_at` on a trace-domain point.) -/
+theorem transition_evalAt_on_domain {root : ℕ → Option F} {g : F} {n e i : ℕ}
+    (hg : IsPrimitiveRoot g n) (hroot : root (Nat.log2 n) = some g) (he : e ≤ n) :
+    ∃ d, fromTransition (fieldOps F root) n e = .ok d ∧ d.evalAt (fieldOps F root) (g ^ i) = some 0 := by
+  obtain ⟨d, hd, _, _, _, hq⟩ := transition_divisor_spec (F := F) hroot he
+  refine ⟨d, hd, ?_⟩
+  rw [hq, ← pow_mul, mul_comm, pow_mul, hg.pow_eq_one, one_pow, sub_self, zero_div]
+
+-- ============================================================================================
+-- (e) constructors and validation accept exactly the well-formed assertions
+-- ============================================================================================
+section Assertions
+variable {α : Type}
+
+theorem single_wf (c s : ℕ) (v : α) : WF (single c s v) := Or.inl ⟨rfl, rfl⟩
+
+/-- `Assertion::periodic` returns an assertion exactly for power-of-two strides `≥ 2` with
+    `first < stride`; anything else panics -/
+theorem periodic_ok_iff (c f s : ℕ) (v : α) (a : Assertion α) :
+    periodic c f s v = .ok a ↔
+      ((∃ k, s = 2 ^ k) ∧ 2 ≤ s ∧ f < s) ∧ a = ⟨c, f, s, [v]⟩ := by
+  unfold periodic
+  cases h : validateStride s f with
+  | none =>
+    have := (validateStride_none_iff s f).mp h
+    simp only [this, true_and, Res.ok.injEq]
+    exact eq_comm
+  | some e =>
+    have : ¬ ((∃ k, s = 2 ^ k) ∧ 2 ≤ s ∧ f < s) := fun hh => by
+      rw [(validateStride_none_iff s f).mpr hh] at h; cases h
+    simp only [this, false_and, iff_false]
+    intro h'; cases h'
+
+example : periodic 0 3 8 (5 : ℕ) = .ok ⟨0, 3, 8, [5]⟩ :=
+  (periodic_ok_iff 0 3 8 5 _).mpr ⟨⟨⟨3, rfl⟩, by decide, by decide⟩, rfl⟩
+
+theorem periodic_wf {c f s : ℕ} {v : α} {a : Assertion α} (h : periodic c f s v = .ok a) : WF a := by
+  obtain ⟨⟨hp, h2, hf⟩, rfl⟩ := (periodic_ok_iff c f s v a).mp h
+  exact Or.inr ⟨hp, h2, hf, Or.inl rfl⟩
+
+/-- `Assertion::sequence` returns an assertion exactly for power-of-two strides `≥ 2`,
+    `first < stride` and a power-of-two number (≥ 1) of values; a one-value sequence is stored as
+    the single assertion at `first` -/
+theorem sequence_ok_iff (c f s : ℕ) (vs : List α) (a : Assertion α) :
+    Model.Divisor.sequence c f s vs = .ok a ↔
+      ((∃ k, s = 2 ^ k) ∧ 2 ≤ s ∧ f < s ∧ ∃ k, vs.length = 2 ^ k) ∧
+        a = ⟨c, f, if vs.length = 1 then 0 else s, vs⟩ := by
+  unfold Model.Divisor.sequence
+  cases h : validateStride s f with
+  | none =>
+    obtain ⟨hp, h2, hf⟩ := (validateStride_none_iff s f).mp h
+    by_cases hl : isPow2 vs.length = true
+    · have hl' := (isPow2_iff _).mp hl
+      have hne : vs.isEmpty = false := by
+        obtain ⟨k, hk⟩ := hl'
+        have : 0 < vs.length := hk ▸ Nat.two_pow_pos k
+        cases vs with
+        | nil => simp at this
+        | cons _ _ => rfl
+      simp only [hne, Bool.false_eq_true, if_false, hl, Bool.not_true, hp, h2, hf, hl', and_self,
+        true_and, Res.ok.injEq]
+      exact eq_comm
+    · have hl' : isPow2 vs.length = false := by simpa using hl
+      have hl'' := (isPow2_false_iff _).mp hl'
+      simp only [hl', Bool.not_false, if_true, hl'', and_false, false_and, iff_false]
+      split <;> (intro h'; cases h')
+  | some e =>
+    have : ¬ ((∃ k, s = 2 ^ k) ∧ 2 ≤ s ∧ f < s) := fun hh => by
+      rw [(validateStride_none_iff s f).mpr hh] at h; cases h
+    constructor
+    · intro h'; cases h'
+    · rintro ⟨⟨a1, a2, a3, _⟩, _⟩; exact absurd ⟨a1, a2, a3⟩ this
+
+example : Model.Divisor.sequence 1 2 4 [(7 : ℕ), 8] = .ok ⟨1, 2, 4, [7, 8]⟩ :=
+  (sequence_ok_iff 1 2 4 [7, 8] _).mpr ⟨⟨⟨2, rfl⟩, by decide, by decide, ⟨1, rfl⟩⟩, rfl⟩
+
+theorem sequence_wf {c f s : ℕ} {vs : List α} {a : Assertion α} (h : Model.Divisor.sequence c f s vs = .ok a) :
+    WF a := by
+  obtain ⟨⟨hp, h2, hf, k, hk⟩, rfl⟩ := (sequence_ok_iff c f s vs a).mp h
+  by_cases h1 : vs.length = 1
+  · exact Or.inl ⟨by simp [h1], h1⟩
+  · refine Or.inr ⟨by simpa [h1] using hp, by simpa [h1] using h2, by simpa [h1] using hf, Or.inr ⟨?_, k, hk⟩⟩
+    have : 0 < vs.length := hk ▸ Nat.two_pow_pos k
+    show 2 ≤ vs.length
+    omega
+
+/-- conversely every well-formed assertion is the result of one of the three constructors: the
+    constructors accept exactly `WF` -/
+theorem wf_constructible {a : Assertion α} (hw : WF a) :
+    (∃ v, a = single a.column a.first v) ∨ (∃ v, periodic a.column a.first a.stride v = .ok a) ∨
+      Model.Divisor.sequence a.column a.first a.stride a.values = .ok a := by
+  obtain ⟨c, f, s, vs⟩ := a
+  rcases hw with ⟨h0, h1⟩ | ⟨hp, h2, hf, hl⟩
+  · left
+    simp only at h0 h1
+    match vs, h1 with
+    | [v], _ => exact ⟨v, by simp [single, h0]⟩
+  · rcases hl with h1 | ⟨h2l, hk⟩
+    · right; left
+      simp only at h1
+      match vs, h1 with
+      | [v], _ => exact ⟨v, (periodic_ok_iff c f s v _).mpr ⟨⟨hp, h2, hf⟩, rfl⟩⟩
+    · right; right
+      simp only at h2l hk hp h2 hf
+      refine (sequence_ok_iff c f s vs _).mpr ⟨⟨hp, h2, hf, hk⟩, ?_⟩
+      have : vs.length ≠ 1 := by omega
+      simp [this]
+
+/-- `validate_trace_length` accepts exactly: a power-of-two trace length `n` with, by kind,
+    `first < n` (single), `stride ≤ n` (periodic), `#values · stride = n` (sequence) -/
+theorem validateTraceLength_accepts_iff (a : Assertion α) (n : ℕ) :
+    a.validateTraceLength n = .ok () ↔
+      (∃ k, n = 2 ^ k) ∧
+        (if a.stride = 0 then a.first < n
+         else if a.values.length = 1 then a.stride ≤ n
+         else a.values.length * a.stride = n) :=
+  validateTraceLength_ok_iff a n
+
+example : (⟨0, 3, 8, [5]⟩ : Assertion ℕ).validateTraceLength 16 = .ok () :=
+  (validateTraceLength_accepts_iff _ _).mpr ⟨⟨4, rfl⟩, by decide⟩
+
+/-- `validate_trace_width` accepts exactly the columns inside the trace -/
+theorem validateTraceWidth_iff (a : Assertion α) (w : ℕ) : a.validateTraceWidth w = true ↔ a.column < w := by
+  simp [Assertion.validateTraceWidth]
+
+/-- `get_num_steps` / `apply` refuse (panic) exactly the trace lengths `validate_trace_length`
+    rejects, and otherwise report the steps `first + stride · i` -/
+theorem getNumSteps_spec (a : Assertion α) (n : ℕ) :
+    (a.validateTraceLength n = .ok () → a.getNumSteps n = .ok (a.stepList n).length) ∧
+    (a.validateTraceLength n ≠ .ok () → ∃ s, a.getNumSteps n = .panic s) := by
+  refine ⟨getNumSteps_ok, fun h => ?_⟩
+  unfold Assertion.getNumSteps
+  cases hv : a.validateTraceLength n with
+  | error e => exact ⟨_, rfl⟩
+  | ok u => cases u; exact absurd hv h
+
+theorem apply_steps {a : Assertion α} {n : ℕ} (hw : WF a) (hv : a.validateTraceLength n = .ok ()) :
+    ∃ l, a.apply n = .ok l ∧ l.map Prod.fst = a.stepList n := by
+  unfold Assertion.apply Assertion.stepList
+  rw [hv]
+  have hlen : a.values ≠ [] := by
+    rcases hw with ⟨_, h⟩ | ⟨_, _, _, h | ⟨h, _⟩⟩ <;> (intro e; rw [e] at h; simp at h)
+  by_cases hs : a.isSingle = true
+  · simp only [hs, if_true]
+    cases hvs : a.values with
+    | nil => exact absurd hvs hlen
+    | cons v rest => exact ⟨_, rfl, rfl⟩
+  · simp only [hs, if_false, Bool.false_eq_true]
+    by_cases hp : a.isPeriodic = true
+    · simp only [hp, if_true]
+      cases hvs : a.values with
+      | nil => exact absurd hvs hlen
+      | cons v rest => exact ⟨_, rfl, by simp [Function.comp_def]⟩
+    · simp only [hp, if_false, Bool.false_eq_true]
+      refine ⟨_, rfl, ?_⟩
+      rw [List.map_map]
+      apply List.ext_getElem
+      · simp
+      · intro i h1 h2
+        simp
+
+-- ============================================================================================
+-- (d) overlaps_with ⇔ same column ∧ common step
+-- ============================================================================================
+
+/-- **`overlaps_with` is exact**: for well-formed assertions valid for the same trace length it
+    returns `true` iff they are placed against the same column and name a common step -/
+theorem overlapsWith_iff {a b : Assertion α} {n : ℕ} (ha : WF a) (hb : WF b)
+    (hva : a.validateTraceLength n = .ok ()) (hvb : b.validateTraceLength n = .ok ()) :
+    a.overlapsWith b = true ↔
+      a.column = b.column ∧ ∃ s, s ∈ a.stepList n ∧ s ∈ b.stepList n := by
+  rw [overlapsWith_eq, Bool.and_eq_true, beq_iff_eq, ovl_iff (shape_fits ha hva) (shape_fits hb hvb)]
+  constructor
+  · rintro ⟨hc, s, h1, h2⟩
+    exact ⟨hc, s, (mem_stepList_iff ha hva s).mpr h1, (mem_stepList_iff hb hvb s).mpr h2⟩
+  · rintro ⟨hc, s, h1, h2⟩
+    exact ⟨hc, s, (mem_stepList_iff ha hva s).mp h1, (mem_stepList_iff hb hvb s).mp h2⟩
+
+theorem overlapsWith_comm {a b : Assertion α} {n : ℕ} (ha : WF a) (hb : WF b)
+    (hva : a.validateTraceLength n = .ok ()) (hvb : b.validateTraceLength n = .ok ()) :
+    a.overlapsWith b = b.overlapsWith a := by
+  rw [overlapsWith_eq, overlapsWith_eq, ovl_comm (shape_fits ha hva) (shape_fits hb hvb)]
+  have : (a.column == b.column) = (b.column == a.column) := by
+    rw [Bool.eq_iff_iff, beq_iff_eq, beq_iff_eq]; exact eq_comm
+  rw [this]
+
+/-- the hypotheses are satisfiable: periodic (first 1, stride 4) and sequence (first 1, stride 8,
+    two values) in a trace of length 16 share step 1 -/
+example : (⟨0, 1, 4, [5]⟩ : Assertion ℕ).overlapsWith ⟨0, 1, 8, [6, 7]⟩ = true ↔
+    (0 : ℕ) = 0 ∧ ∃ s, s ∈ (⟨0, 1, 4, [5]⟩ : Assertion ℕ).stepList 16 ∧
+      s ∈ (⟨0, 1, 8, [6, 7]⟩ : Assertion ℕ).stepList 16 :=
+  overlapsWith_iff (n := 16)
+    (Or.inr ⟨⟨2, rfl⟩, by decide, by decide, Or.inl rfl⟩)
+    (Or.inr ⟨⟨3, rfl⟩, by decide, by decide, Or.inr ⟨by decide, 1, rfl⟩⟩)
+    ((validateTraceLength_accepts_iff _ _).mpr ⟨⟨4, rfl⟩, by decide⟩)
+    ((validateTraceLength_accepts_iff _ _).mpr ⟨⟨4, rfl⟩, by decide⟩)
+
+end Assertions
+
 end WinterProofs.C16
